@@ -548,6 +548,68 @@ func checkHeapInterface(p *Prog, r *Report) {
 	})
 	r.Check(okGE, "R-HEAP.expiry", fnKey(ge)+": advertised expiry = minExpireTime(0) - now (+ slack)", p.pos(ge.Pos()), "reads the root's earlier deadline",
 		"the advertised time to the next expiry is not computed from the queue root's earlier deadline", true)
+	// with a non-empty queue every return is the computed duration or the MinExpiryTime clamp (never the idle default)
+	var nonEmpty *ssa.BasicBlock
+	eachInstr(ge, func(in ssa.Instruction) {
+		if i, ok := in.(*ssa.If); ok {
+			if b, ok := i.Cond.(*ssa.BinOp); ok && b.Op == token.GTR {
+				if c, ok := b.X.(*ssa.Call); ok && calleeName(&c.Call) == "(pkg/intermediate.TimeToExpirePriorityQueue).Len" {
+					if z, ok := constInt(b.Y); ok && z == 0 {
+						nonEmpty = i.Block().Succs[0]
+					}
+				}
+			}
+		}
+	})
+	if nonEmpty == nil {
+		r.Undecided("R-HEAP.expiry-clamp", fnKey(ge)+": non-empty queue branch", p.pos(ge.Pos()), "no 'queue.Len() > 0' test found")
+	} else {
+		bad := ""
+		seen := map[*ssa.BasicBlock]bool{}
+		var walk func(b *ssa.BasicBlock)
+		walk = func(b *ssa.BasicBlock) {
+			if seen[b] {
+				return
+			}
+			seen[b] = true
+			for _, in := range b.Instrs {
+				if rt, ok := in.(*ssa.Return); ok {
+					v := retResult(rt, 0)
+					okV := false
+					if u, ok := v.(*ssa.UnOp); ok {
+						if g, ok := u.X.(*ssa.Global); ok && g.Name() == "MinExpiryTime" {
+							okV = true
+						}
+					}
+					if b2, ok := v.(*ssa.BinOp); ok && b2.Op == token.ADD {
+						okV = true
+					}
+					if !okV {
+						bad = p.instrPos(in)
+					}
+				}
+			}
+			for _, s := range b.Succs {
+				walk(s)
+			}
+		}
+		walk(nonEmpty)
+		// the clamp: negative => MinExpiryTime
+		clamp := false
+		eachInstr(ge, func(in ssa.Instruction) {
+			if i, ok := in.(*ssa.If); ok {
+				if b, ok := i.Cond.(*ssa.BinOp); ok {
+					if z, ok := constInt(b.Y); ok && z == 0 && (b.Op == token.LSS || b.Op == token.LEQ || b.Op == token.GTR || b.Op == token.GEQ) {
+						if _, isAdd := b.X.(*ssa.BinOp); isAdd {
+							clamp = true
+						}
+					}
+				}
+			}
+		})
+		r.Check(bad == "" && clamp, "R-HEAP.expiry-clamp", fnKey(ge)+": non-empty queue => computed duration, clamped at MinExpiryTime", p.pos(ge.Pos()), "every return on the non-empty branch is the duration or MinExpiryTime",
+			"with entries queued the function can return the idle default (min of the timeouts) instead of the time to the earliest deadline (return at "+bad+"): an overdue flow is not looked at for a whole timeout", true)
+	}
 }
 
 func checkDeadlineTests(p *Prog, r *Report, delFn *ssa.Function) {
@@ -675,6 +737,45 @@ func checkDeadlineTests(p *Prog, r *Report, delFn *ssa.Function) {
 			}
 		})
 		r.Check(rearm, "R-VALUE.rearm", fnKey(f)+": active deadline re-armed to now + activeExpiryTimeout", p.instrPos(pop), "found", "the active deadline is never re-armed after an active expiry: the flow would be exported at every scan", true)
+		// on the ready path the deadlines of the popped item change only after the callback succeeded
+		var cb *ssa.Call
+		eachInstr(f, func(in ssa.Instruction) {
+			if c, ok := in.(*ssa.Call); ok && !c.Call.IsInvoke() && c.Call.StaticCallee() == nil && typeName(c.Call.Value.Type()) == "pkg/intermediate.FlowKeyRecordMapCallBack" {
+				cb = c
+			}
+		})
+		if cb != nil {
+			eachInstr(f, func(in ssa.Instruction) {
+				s, ok := in.(*ssa.Store)
+				if !ok {
+					return
+				}
+				tn, fn, base, ok := fieldOf(s.Addr)
+				if !ok || tn != "pkg/intermediate.ItemToExpire" || base != item || (fn != "activeExpireTime" && fn != "inactiveExpireTime") {
+					return
+				}
+				// ready path?
+				ready := false
+				for _, gd := range guardsOf(in.Block()) {
+					if u, ok := gd.If.Cond.(*ssa.UnOp); ok && u.Op == token.MUL && isRTS(u.X) && gd.Succ == 0 {
+						ready = true
+					}
+				}
+				if !ready {
+					return
+				}
+				okAfter := false
+				for _, fct := range blockFacts(in.Block()) {
+					if fct.X == ssa.Value(cb) && fct.Op == token.EQL {
+						if c, ok := fct.Y.(*ssa.Const); ok && c.IsNil() {
+							okAfter = true
+						}
+					}
+				}
+				r.Check(okAfter, "R-VALUE.rearm-after-success", fmt.Sprintf("%s: %s of the popped item re-armed", fnKey(f), fn), p.instrPos(in), "only on the err == nil edge of the export callback",
+					"a deadline of the popped item is moved into the future although the export callback may fail: the failed flow is put back with a fresh deadline and is not retried at the next scan", true)
+			})
+		}
 	}
 }
 
